@@ -372,6 +372,32 @@ impl InitMsg {
     }
 }
 
+#[cfg(dswd_vpncloud_verif)]
+impl InitMsg {
+    pub fn verif_read_from(buffer: &[u8], trusted_keys: &[Ed25519PublicKey]) -> Result<(Self, Ed25519PublicKey), Error> {
+        Self::read_from(buffer, trusted_keys)
+    }
+
+    pub fn verif_write_to(&self, buffer: &mut [u8], key: &Ed25519KeyPair) -> Result<usize, io::Error> {
+        self.write_to(buffer, key)
+    }
+}
+
+#[cfg(dswd_vpncloud_verif)]
+impl<P: Payload> InitState<P> {
+    pub fn verif_salted_node_id_hash(&self) -> SaltedNodeIdHash {
+        self.salted_node_id_hash
+    }
+
+    pub fn verif_counters(&self) -> (usize, usize) {
+        (self.failed_retries, self.close_time)
+    }
+
+    pub fn verif_selected_algorithm(&self) -> Option<&'static Algorithm> {
+        self.selected_algorithm
+    }
+}
+
 #[derive(PartialEq, Debug)]
 pub enum InitResult<P: Payload> {
     Continue,
